@@ -222,7 +222,7 @@ func ping(addr string) bool {
 	if _, err := c.Write(frame([]string{"ping"})); err != nil {
 		return false
 	}
-	o := readReply(bufio.NewReader(c), c, 2*time.Second)
+	o := readReply(bufio.NewReader(c), c, 10*time.Second)
 	return o == "reply"
 }
 
@@ -276,6 +276,14 @@ func (ch *child) send(v vector, member int) result {
 	c.Write(payload)
 	r := bufio.NewReader(c)
 	res := result{outcome: readReply(r, c, 1500*time.Millisecond)}
+	if res.outcome == "timeout" && v.raw == nil && !v.pubsub && r.Buffered() == 0 && !ch.dead() {
+		// nothing has arrived within the watchdog's 1.5 s.  A busy machine is not a wedged member: a framed request
+		// gets another 20 s before it counts as unanswered (a request that really hangs costs that once)
+		c.SetReadDeadline(time.Now().Add(20 * time.Second))
+		if _, err := r.Peek(1); err == nil {
+			res.outcome = readReply(r, c, 5*time.Second)
+		}
+	}
 	if res.outcome == "closed" || res.outcome == "timeout" {
 		time.Sleep(30 * time.Millisecond)
 		if ch.dead() {
@@ -289,7 +297,7 @@ func (ch *child) send(v vector, member int) result {
 		} else {
 			c.SetWriteDeadline(time.Now().Add(time.Second))
 			c.Write(frame([]string{"ping"}))
-			res.pingok = readReply(r, c, 1500*time.Millisecond) == "reply"
+			res.pingok = readReply(r, c, 10*time.Second) == "reply"
 		}
 	}
 	res.otherok = !ch.dead()
